@@ -215,6 +215,44 @@ def build_def_declared(d, name='f'):
     return specs.get_function_definition(func, name=name)
 
 
+def _simple(d):
+    return not d.get('varargs') and not d.get('kwargs') and \
+        not d.get('no_kwargs') and all(
+            set(p) <= {'name', 'type', 'nullable'} for p in d['params'])
+
+
+def build_def_shared(d, shared, name='f'):
+    """One undecorated Python callable registered several times, each time
+    with the parameter types of another family member supplied through
+    parameter_type_func (a public argument of register_function /
+    get_function_definition).  None for members that are not plain
+    positional signatures."""
+    if not _simple(d):
+        return None
+    kind = d.get('kind', 'function')
+    key = (tuple(p['name'] for p in d['params']), kind)
+    if key not in shared:
+        names = ', '.join(key[0])
+        ns = {'_show': _show}
+        exec('def payload(%s):\n    return [None, [_show(x) for x in [%s]], '
+             '{}]\n' % (names, names), ns)
+        func = ns['payload']
+        if kind == 'method':
+            func = specs.method(func)
+        elif kind == 'extension':
+            func = specs.extension_method(func)
+        shared[key] = func
+    func = shared[key]
+    types = {p['name']: p for p in d['params']}
+    fd = specs.get_function_definition(
+        func, name=name, parameter_type_func=lambda n: make_type(
+            types[n]['type'], types[n].get('nullable', False)))
+    tag = d['tag']
+    inner = fd.payload
+    fd.payload = lambda *a, **kw: [tag] + inner(*a, **kw)[1:]
+    return fd
+
+
 def build_chain(family, base, orders=None, ordered=True, reg_order=None):
     """Chain of contexts (layer 0 nearest) holding the family.
 
@@ -232,12 +270,15 @@ def build_chain(family, base, orders=None, ordered=True, reg_order=None):
         parent = c
     by_layer = dict(ctxs)
     defs = {}
+    shared = {}
     idx = reg_order if reg_order is not None else range(len(family['defs']))
     for i in idx:
         d = family['defs'][i]
         fd = None
         if family.get('decl') == 'signature':
             fd = build_def_declared(d)
+        elif family.get('decl') == 'shared-callable':
+            fd = build_def_shared(d, shared)
         if fd is None:
             fd = build_def(d)
         defs[d['tag']] = fd
